@@ -122,6 +122,10 @@ int SimulateAvr8::dump_ram(int start, int end)
   int n, count;
 
   count = 0;
+  // The range comes from the command line: stay inside ram[].
+  if (start < 0) { start = 0; }
+  if (end > ram_size) { end = ram_size; }
+
   for (n = start; n < end; n++)
   {
     if ((count % 16) == 0) { printf("\n0x%04x: ", n); }
